@@ -217,10 +217,12 @@ class Traversal:
                     if "els" in s:
                         els = self.paths(s["els"], env, depth)
                         sub2 = []
+                        ct_ = self._with_aps([{"t": "pat", "scrut": s.get("init"), "pat": s["pat"], "v": True}], env)
+                        cf_ = self._with_aps([{"t": "pat", "scrut": s.get("init"), "pat": s["pat"], "v": False}], env)
                         for p in sub:
-                            sub2.append(p.then(Path(conds=[{"t": "pat", "scrut": s.get("init"), "pat": s["pat"], "v": True}])))
+                            sub2.append(p.then(Path(conds=ct_)))
                             for q in els:
-                                sub2.append(p.then(Path(conds=[{"t": "pat", "scrut": s.get("init"), "pat": s["pat"], "v": False}])).then(q))
+                                sub2.append(p.then(Path(conds=cf_)).then(q))
                         sub = sub2
                 elif s["k"] in ("Expr", "Semi"):
                     sub = self.paths(s["e"], env, depth)
@@ -443,7 +445,7 @@ class Traversal:
         # 3. inline crate-local callees that receive the node (or part of it) or the visitor
         g = self.prog.resolve_local(n)
         if g is not None:
-            cur = self._seq(cur, [Path(effects=[{"kind": "call", "fn": g.def_path, "name": g.name, "node": n, "ap": None, "vty": None, "depth": depth}])])
+            cur = self._seq(cur, [Path(effects=[{"kind": "call", "fn": g.def_path, "name": g.name, "node": n, "ap": None, "vty": None, "depth": depth, "in_fn": self.fn.def_path}])])
         if g is not None and g.body is not None and depth < self.max_inline:
             aps = [self.access_path(a, env) for a in args]
             if any(ap == "VISITOR" for ap in aps):
